@@ -129,7 +129,7 @@ func rulesC18(e *Engine, r *Report) {
 	}
 
 	// ---------------------------------------------------------------- R18.5
-	r.Rule("R18.5", "every day the window touches is visited: in each() the day file of the current position is offered to the handler in every iteration BEFORE the window-end test, so the closing day (reached by the step that overshoots the end instant) is still visited; the position advances by exactly one day in the window's direction; an empty or degenerate window visits nothing")
+	r.Rule("R18.5", "every day the window touches is visited: in each() the day file of the current position is offered to the handler in every iteration BEFORE the window-end test, so the closing day (reached by the step that overshoots the end instant) is still visited; the position advances by exactly one CALENDAR day in the window's direction (AddDate, not 24 absolute hours: daylight-saving days have 23 or 25); an empty or degenerate window visits nothing")
 	e.checkDayLoop(r, "R18.5")
 
 	// ---------------------------------------------------------------- R18.6
@@ -336,13 +336,31 @@ func (e *Engine) checkDayLoop(r *Report, rule string) {
 				_ = cls
 				r.Min(rule, "window-end exits of the day loop", nExit, 2)
 				// advance by one day in the direction
-				adv := e.findInstrs(fn, "call(time.(Time).Add)(phi(§), phi(§))", false)
+				// one CALENDAR day in the window's direction: a step of 24 absolute hours skips the 23-hour
+				// spring-forward day when the window starts after 23:00 local (F29)
+				adv := e.findInstrs(fn, "call(time.(Time).AddDate)(phi(§), 0, 0, §)", false)
 				okAdv := len(adv) == 1
+				var stepS string
 				if okAdv {
-					step := e.Canon(adv[0].(ssa.CallInstruction).Common().Args[1])
-					okAdv = strings.Contains(step, "86400000000000") && strings.Contains(step, "* -1")
+					stepS = e.Canon(adv[0].(ssa.CallInstruction).Common().Args[3])
+					// the step is +1 or -1 (a phi of the two constants, possibly carried round the loop)
+					okAdv = false
+					leaves := map[string]bool{}
+					for _, lv := range e.phiLeaves(adv[0].(ssa.CallInstruction).Common().Args[3]) {
+						leaves[e.Canon(lv)] = true
+					}
+					if len(leaves) > 0 {
+						okAdv = true
+						for l := range leaves {
+							if l != "1" && l != "-1" {
+								okAdv = false
+							}
+						}
+					}
 				}
-				r.Check(okAdv, rule, "log.(*rollingFile).each: position advances by ±24h", e.Pos(fn.Pos()), "the step of the day loop is not one day in the window's direction", 1)
+				abs := e.findInstrs(fn, "call(time.(Time).Add)(phi(§), §)", false)
+				r.Check(okAdv && len(abs) == 0, rule, "log.(*rollingFile).each: position advances by one calendar day in the window's direction", e.Pos(fn.Pos()),
+					"the day loop does not step with AddDate(0, 0, ±1): a step of 24 absolute hours lands on the day after next across a 23-hour (spring-forward) day, whose file is then never visited", 1, stepS)
 				_ = backs
 			}
 		}
